@@ -35,6 +35,8 @@ const REPLY_MUTS: &[&str] = &[
 	"proof_sig_other",
 	"proof_resign_other",
 	"proof_resign_other",
+	"proof_resign_amount",
+	"proof_resign_amount",
 	"amount_plus",
 	"amount_minus",
 	"part_key_rand",
